@@ -417,7 +417,8 @@ def is_registry_point(component):
 def is_datasource(component):
     comp_type = get_component_type(component)
     if comp_type:
-        return comp_type.__name__ == "datasource"
+        # a type derived from the datasource type is a datasource type too
+        return any(t.__name__ == "datasource" for t in getattr(comp_type, "__mro__", (comp_type,)))
     return False
 
 
